@@ -152,6 +152,7 @@ def execute(sc, mutant=None):
             st.setdefault('sent', set()).add((dev.session, p))
             st['nreq'] += 1
             r = st['nreq']
+            st.setdefault('sess_of', {})[r] = dev.session
             if k != 'send':      # answered at once from the first / from the second copy on
                 st.setdefault('auto', {})[r] = 1 if k == 'sendq' else 2
             # after: id (last data byte) of the incoming packet whose handler issues this request, 0 = none;
@@ -162,6 +163,7 @@ def execute(sc, mutant=None):
             pk.set_header(PORT, 0)
             pk.data = bytes([r]) + bytes(PATS[p])
             cf.send_packet(pk, expected_reply=PATS[p], timeout=TMO[p])
+            st.setdefault('done', set()).add((st['sess_of'].get(r), p))
 
         # an application that reconnects from inside the link-error notification (auto-reconnect)
         # and sends a request at once: the first `recb` notifications do that
@@ -190,8 +192,11 @@ def execute(sc, mutant=None):
                 d = tuple(pk.data)
                 if eleft[0] <= 0 or len(d) < 2 or not (100 <= d[-1] < 250):
                     return
+                # the follow-up is for the longest pattern the packet matches among the requests that
+                # were completely sent before it arrived: that one the packet has answered (one
+                # outstanding request per pattern, as everywhere in this check)
                 for p in (2, 1, 3):                       # longest pattern first
-                    if d[:len(PATS[p])] == PATS[p]:
+                    if d[:len(PATS[p])] == PATS[p] and (dev.session, p) in st.get('snap', {}).get(d[-1], ()):
                         eleft[0] -= 1
                         with app_lock:
                             do_send('send', p, after=d[-1])
@@ -237,6 +242,8 @@ def execute(sc, mutant=None):
                     if dev.link is not None:
                         # every injected packet ends in a unique id byte (patterns are prefixes)
                         st['pid'] = 100 + (st.get('pid', 100) - 100 + 1) % 150
+                        # the requests whose send_packet() call had returned when this packet arrived
+                        st.setdefault('snap', {})[st['pid']] = set(st.get('done', ()))
                         dev.emit(sd.reply(PORT, 0, bytes(op[1]) + bytes([st['pid']])))
 
         u = s.spawn(user, 'user')
